@@ -28,12 +28,12 @@ func vh_symDiskTree(root string, maxb int) {
 	}
 	m.MkDir(root+"/d", perm(), id("uid"), id("gid"), vh_chooseMtime("mtime"))
 	if v.Param("X", 0) != 0 && v.Bool("xattr-d") {
-		m.SetXattr(root+"/d", "user.d", v.Bytes("xd", 1))
+		m.SetXattr(root+"/d", "user.d", v.Bytes("xd", v.Choose("xd-len", 2))) // present with an empty value, or one byte
 	}
 	if v.Bool("has-d/f") {
 		m.MkFile(root+"/d/f", v.Bytes("data", v.Choose("size", maxb+1)), perm(), id("uid"), id("gid"), vh_chooseMtime("mtime"))
 		if v.Param("X", 0) != 0 && v.Bool("xattr-f") {
-			m.SetXattr(root+"/d/f", "user.f", v.Bytes("xf", 1))
+			m.SetXattr(root+"/d/f", "user.f", v.Bytes("xf", v.Choose("xf-len", 2)))
 		}
 		if sel&1 != 0 && v.Bool("has-h") {
 			m.MkLink(root+"/d/f", root+"/h")
@@ -64,7 +64,8 @@ func vh_symDiskTree(root string, maxb int) {
 	case 1:
 		m.MkNode(root+"/p", m.KFifo, perm(), 0, id("uid"), id("gid"), vh_chooseMtime("mtime"))
 	case 2:
-		m.MkNode(root+"/p", m.KChar, perm(), 0x0103, id("uid"), id("gid"), vh_chooseMtime("mtime"))
+		// major 1, minor 300: a minor beyond 8 bits lives in the high part of the device number
+		m.MkNode(root+"/p", m.KChar, perm(), 0x10012c, id("uid"), id("gid"), vh_chooseMtime("mtime"))
 	}
 	// populating changed the directory mtimes; give them their final values last
 	m.SetMtime(root+"/d", vh_chooseMtime("mtime-d"))
